@@ -150,6 +150,10 @@ func goCall(t *rt.Thread, u *rt.UserData, args []rt.Value) (res []rt.Value, err 
 	var goRes []reflect.Value
 	defer func() {
 		if r := recover(); r != nil {
+			if _, ok := r.(rt.ContextTerminationError); ok {
+				// The termination of a runtime context must not be intercepted.
+				panic(r)
+			}
 			err = fmt.Errorf("panic in go call: %v", r)
 		}
 	}()
